@@ -1,6 +1,6 @@
 """C02 - hub never books more than is delegated; bonds delegated in full: structural clauses (DESIGN 6, C02)."""
 from ..callgraph import explore, storage_effects, message_effects, call_sites, written_value_in, site_guarded
-from ..expr import show, find
+from ..expr import show, find, arith_args
 from ..ledger import classify
 from .common import entry, msg_enum, variant_env, stored, where, arm_handler
 from .hub_common import (receive_handlers, subtree, Roles, resync_fns, early_exits, HUBCFG, PARAMS, STATE, BATCH)
@@ -169,8 +169,8 @@ def run(prog, world, sem, rep):
         subs = []
         for tk in ("bsei", "stsei"):
             tv = world.norm(sem.field_of(out, "total_bond_%s_amount" % tk), 0, False) if out is not None else None
-            if tv is not None and tv.op == "call" and tv.info.endswith("checked_sub"):
-                subs.append(tv.args[1])
+            if arith_args(tv, "Sub") is not None:
+                subs.append(arith_args(tv, "Sub")[1])
         # planner claim = the ws call (other than history writer) whose first non-deps argument is Add(sub1, sub2)
         okc = False
         det = "anchor-lost: no call receives the sum of the two amounts subtracted from the pools"
